@@ -54,7 +54,12 @@ def make_case(seed, i, tier):
         scn["workers"] = min(scn["workers"], scn["n_intf"] - 1)
         if scn["cap"] is not None and scn["cap"] > scn["n_intf"] - 0.5:
             scn["cap"] = None
-    pre = rng.choice([None, None, "clean", "crash"])
+    pre = rng.choice([None, None, "clean", "crash", "long"])
+    if pre == "long":
+        # a long earlier incarnation (not enumerated): path numbers with two digits, a long data file,
+        # deletions well under way; the enumerated incarnation is the short tail
+        scn["long_pre"] = rng.choice([16, 22, 28])
+        scn["steps"] = scn["long_pre"] + rng.choice([3, 4, 5])
     return {"seed": seed, "scn": scn, "props": [PROP], "pre": pre, "tier": tier,
             "second_p": 0.08 if tier == "quick" else 0.15, "kill_p": 0.05,
             "all_steps": tier != "quick"}
@@ -302,6 +307,8 @@ def run(case):
         plan.append({"steps": max(scn["workers"], N // 2)})
     elif case.get("pre") == "crash":
         plan.append({"steps": N, "crash": {"kind": "exit", "after": max(1, N // 3)}})
+    elif case.get("pre") == "long":
+        plan.append({"steps": max(scn["workers"], min(scn.get("long_pre", N // 2), N - 1))})
     plan.append({"steps": N})
     c1 = dict(case, scn=dict(scn, plan=plan))
     roots = []
